@@ -432,7 +432,7 @@ def run_fattree(w, case):
     cmap = case.get('cmap', 'id')
     nfl = len(flows)
     keys = list(flows) + ([f + 10000 for f in flows] if tcp else [])
-    if cmap != 'id' and server != 'SP':
+    if cmap != 'id':
         stats['fattree_many_to_one'] = 1
         m = {'mod2': 2, 'mod3': 3, 'one': 1}[cmap]
 
